@@ -216,7 +216,9 @@ def rule_R1_c(ctx):
     # counter helpers of blake3_impl.h
     ti = _rc.tu("c/blake3.c")
     cl, ch = ti.funcs.get("counter_low"), ti.funcs.get("counter_high")
-    okl = cl is not None and [s for s in cl["body"] if s[0] == "return"] and _rc.nc(cl["body"][0][1]) == ("cast", ("var", "counter", "param"), "uint32_t")
+    okl = cl is not None and [s for s in cl["body"] if s[0] == "return"] and _rc.nc(cl["body"][0][1]) in (
+        ("cast", ("var", "counter", "param"), "uint32_t"),
+        ("cast", ("bin", "&", ("var", "counter", "param"), ("int", 0xFFFFFFFF)), "uint32_t"))     # the explicit mask is the truncation itself
     okh = ch is not None and [s for s in ch["body"] if s[0] == "return"] and _rc.nc(ch["body"][0][1]) == ("cast", ("bin", ">>", ("var", "counter", "param"), ("int", 32)), "uint32_t")
     ctx.ob(bool(okl), "c-counter_low", "c/blake3_impl.h", "counter_low = (uint32_t)counter: %s" % bool(okl))
     ctx.ob(bool(okh), "c-counter_high", "c/blake3_impl.h", "counter_high = (uint32_t)(counter >> 32): %s" % bool(okh))
@@ -739,7 +741,7 @@ def rule_ST_c(ctx):
             nstages += 1
             inst = "driver-stage:%s:%s" % (fname, calls[0][1])
             cond = norm(s[2])
-            okc = cond == ("bin", ">=", ("var", rem), ("int", N)) or (N == 1 and cond == ("bin", ">", ("var", rem), ("int", 0)))
+            okc = cond == ("bin", ">=", ("var", rem), ("int", N)) or (N == 1 and cond in (("bin", ">", ("var", rem), ("int", 0)), ("bin", "!=", ("var", rem), ("int", 0))))
             if not okc:
                 bad = "loop condition %s ; required %s >= %d" % (_cshow_cond(s[2]), rem, N)
             if prev is not None and N >= prev and bad is None:
